@@ -1572,6 +1572,10 @@ class InterpExpr:
             return list(v)
         if isinstance(v, str):
             return list(v)
+        if isinstance(v, ClassV) and v.name in self.ct.classes and self.ts.is_enum_class(v.name) \
+                and self.ts.enum_info(v.name)['is_enum']:
+            # iterating an Enum class yields its members in definition order
+            return [EnumMember(v.name, n, code, val) for n, code, val in self.ts.enum_info(v.name)['members']]
         return None
 
 
